@@ -7,6 +7,10 @@ Line protocol for C10 (name-keyed access = positional access, whatever the looku
   alias <c> <id> <alias>               set_alias                        → ok <pos> | err=…
   group <c> <name> <ids|-> <comp|->    define_group (molar composition) → ok <positions> | err=…
   six <c>                              new SplitIndexer                 → ok
+  reset <ix> <c>                       indexer.reset_chemicals(chemicals c)   → ok <phase(s)> m:<data> | err=…
+  copyix <ix>                          indexer.copy()                          → ok <phase(s)> m:<data>
+  getindex <c> <key>                   chemicals.get_index(IDs)                → ok <pos;pos;…> | err=…
+  kcix <c> <phase> <key> <data> / ksix <c> <key> <data> / kmix <c> (ph,ids)=data|…   keyword constructors
   cix <c> [<phase>]                    new single-phase indexer (phase l by default) → ok
   mix <c> <phases>                     new multi-phase indexer          → ok <sorted phases>
   array|split|iarray|isplit <c> <key> <data>   chemicals.array / split / iarray / isplit(data, order=IDs) → v:… | err=…
@@ -96,6 +100,9 @@ def parseOp (line : String) : Option Op :=
   | ["mix", c, ps] => do some (.newMatIx (← c.toNat?) (dash ps).toList)
   | ["get", i, key] => do some (.get (← i.toNat?) (← parseKey key))
   | ["set", i, key, d] => do some (.set (← i.toNat?) (← parseKey key) (← parseData d))
+  | ["reset", i, c] => do some (.resetChem (← i.toNat?) (← c.toNat?))
+  | ["copyix", i] => do some (.copyIx (← i.toNat?))
+  | ["getindex", c, key] => do some (.getIndex (← c.toNat?) (← parseKey key))
   | ["copylike", l, r] => do some (.copyLike (← l.toNat?) (← r.toNat?))
   | ["mixfrom", l, r] => do some (.mixFrom (← l.toNat?) (← r.toNat?))
   | _ => none
@@ -137,9 +144,57 @@ def showOut (op : Op) : Out → String
   | .state ix =>
     "ok " ++ (match ix.phases with | some ps => String.ofList ps | none => String.ofList [ix.phase]) ++ " "
       ++ showVal (.mat ix.data)
+  | .index es => "ok " ++ (if es.isEmpty then "-" else joinWith ";" (es.map showEnt))
   | .err e => "err=" ++ e.toString
 
+/-- Keyword constructors `Indexer(**ID_data)`: a blank indexer followed by `self[IDs] = values`
+(per phase for a `MaterialIndexer`); when a write raises there is no object. -/
+def parseCtor (st : St) (line : String) : Option (Op × List Op) :=
+  let n := st.ixs.length
+  match splitWs line with
+  | ["kcix", c, ph, key, d] => do
+    let ch ← match ph.toList with | [ch] => some ch | _ => none
+    some (.newChemIx (← c.toNat?) ch, [.set n (← parseKey key) (← parseData d)])
+  | ["ksix", c, key, d] => do some (.newSplitIx (← c.toNat?), [.set n (← parseKey key) (← parseData d)])
+  | ["kmix", c, spec] => do
+    let parts := splitOn1 spec '|'
+    let sets ← parts.mapM fun p =>
+      match splitOn1 p '=' with
+      | [pk, d] => do some (Op.set n (← parseKey pk) (← parseData d))
+      | _ => none
+    let phases := parts.filterMap fun p => (p.toList.drop 1).head?
+    some (.newMatIx (← c.toNat?) phases, sets)
+  | _ => none
+
+def runCtor (st : St) (mk : Op) (sets : List Op) : St × String :=
+  let (st1, o1) := st.step mk
+  match o1 with
+  | .err e => (st, "err=" ++ e.toString)
+  | _ =>
+    let rec go (s : St) : List Op → Option St
+      | [] => some s
+      | op :: t =>
+        match s.step op with
+        | (_, .err _) => none
+        | (s', _) => go s' t
+    -- the first failing write decides the error
+    let rec firstErr (s : St) : List Op → String
+      | [] => "err=TypeError"
+      | op :: t =>
+        match s.step op with
+        | (_, .err e) => "err=" ++ e.toString
+        | (s', _) => firstErr s' t
+    match go st1 sets with
+    | some s' =>
+      match s'.ixs[st.ixs.length]? with
+      | some ix => (s', showOut mk (.state ix))
+      | none => (s', "ok")
+    | none => (st, firstErr st1 sets)
+
 def step (st : St) (line : String) : St × String :=
+  match parseCtor st line with
+  | some (mk, sets) => runCtor st mk sets
+  | none =>
   match parseOp line with
   | none => (st, "bad-op")
   | some op =>
